@@ -428,6 +428,33 @@ class Net(object):
         self.stat('reset_injected')
         return 'ok'
 
+    def keepalive_total(self, sock):
+        """Seconds of silence after which the kernel resets an unreachable peer's connection
+        (TCP_KEEPIDLE + TCP_KEEPINTVL * TCP_KEEPCNT), or None when SO_KEEPALIVE is not set."""
+        o = sock.opts
+        if not o.get((_real.SOL_SOCKET, _real.SO_KEEPALIVE)):
+            return None
+        try:
+            return (o.get((_real.IPPROTO_TCP, _real.TCP_KEEPIDLE), 7200) +
+                    o.get((_real.IPPROTO_TCP, _real.TCP_KEEPINTVL), 75) * o.get((_real.IPPROTO_TCP, _real.TCP_KEEPCNT), 9))
+        except AttributeError:
+            return None
+
+    def keepalive_due(self, blocked_since, now):
+        """[(cid, side)] of endpoints whose keep-alive has expired; blocked_since: cid -> time the path went dark."""
+        out = []
+        for cid, c in self.conns.items():
+            t0 = blocked_since.get(cid)
+            if t0 is None:
+                continue
+            for side, s in ((0, c.csock), (1, c.ssock)):
+                if s is None or s.state != 'connected' or s.reset:
+                    continue
+                ka = self.keepalive_total(s)
+                if ka is not None and now - t0 > ka:
+                    out.append((cid, side))
+        return out
+
     def kernel_close_host(self, host):
         """Process death: the kernel closes every socket of the host."""
         for fd in sorted(self.socks):
